@@ -18,8 +18,10 @@ import base64
 import dataclasses
 import re
 import types
-from datetime import date, datetime
+from datetime import date, datetime, time
 from typing import Any, Callable, TypeVar, Union, get_args, get_origin, get_type_hints
+
+from uuid import UUID
 
 import cattrs
 from cattrs.errors import BaseValidationError, ClassValidationError, IterableValidationError
@@ -298,6 +300,31 @@ converter.register_structure_hook(datetime, structure_datetime)
 converter.register_unstructure_hook(datetime, unstructure_datetime)
 converter.register_structure_hook(date, structure_date)
 converter.register_unstructure_hook(date, unstructure_date)
+
+
+def structure_time(data: str | time, _: type[time]) -> time:
+    """Structure hook for OpenAPI format "time" (ISO 8601 time string)."""
+    if isinstance(data, time):
+        return data
+    if isinstance(data, str):
+        return time.fromisoformat(data)
+    raise TypeError(f"Cannot convert {type(data)} to time")
+
+
+def structure_uuid(data: str | UUID, _: type[UUID]) -> UUID:
+    """Structure hook for OpenAPI format "uuid"."""
+    if isinstance(data, UUID):
+        return data
+    if isinstance(data, str):
+        return UUID(data)
+    raise TypeError(f"Cannot convert {type(data)} to UUID")
+
+
+# Register time and UUID handling (the types generated for format "time" and "uuid")
+converter.register_structure_hook(time, structure_time)
+converter.register_unstructure_hook(time, lambda data: data.isoformat())
+converter.register_structure_hook(UUID, structure_uuid)
+converter.register_unstructure_hook(UUID, str)
 
 
 # =============================================================================
